@@ -620,7 +620,7 @@ func genShape(rng *rand.Rand, family string) Shape {
 // ---------------------------------------------------------------------------
 // input streams that follow a stream-method request on a pipe
 
-var inputKinds = []string{"ticks", "vals", "none", "eos-only", "wrong-schema", "castable", "ptr-location", "ptr-shm", "cancel", "garbage", "nulls", "two-streams", "vals-then-garbage", "huge-rows"}
+var inputKinds = []string{"ticks", "vals", "none", "eos-only", "wrong-schema", "castable", "ptr-location", "ptr-shm", "cancel", "garbage", "nulls", "two-streams", "vals-then-garbage", "huge-rows", "dict-oob", "dict-col", "dict-bad-offsets", "utf8-bad-offsets"}
 
 func inputStream(rng *rand.Rand, kind string) (body []byte, ext map[string][]byte) {
 	empty := arrow.NewSchema(nil, nil)
@@ -678,6 +678,17 @@ func inputStream(rng *rand.Rand, kind string) (body []byte, ext map[string][]byt
 		schema = arrow.NewSchema([]arrow.Field{{Name: "v", Type: arrow.PrimitiveTypes.Int64}}, nil)
 		b := gen.Batch(rng, schema, gen.BatchOpt{Rows: 2, FixedRows: true})
 		recs = append(recs, b)
+	case "dict-oob":
+		var b arrow.RecordBatch
+		schema, b = dictOOBBatch(rng)
+		recs = append(recs, b)
+	case "dict-bad-offsets", "utf8-bad-offsets":
+		var b arrow.RecordBatch
+		schema, b = badOffsetsBatch(kind == "dict-bad-offsets")
+		recs = append(recs, b)
+	case "dict-col":
+		schema = arrow.NewSchema([]arrow.Field{{Name: "v", Type: &arrow.DictionaryType{IndexType: arrow.PrimitiveTypes.Int8, ValueType: arrow.BinaryTypes.String}}}, nil)
+		recs = append(recs, gen.Batch(rng, schema, gen.BatchOpt{Rows: 2, FixedRows: true}))
 	case "ptr-location":
 		schema = valSchema
 		v := pick(rng, []string{"ok", "garbage", "missing", "wrong-schema", "zero-rows", "loop"})
